@@ -95,6 +95,8 @@ pub struct ArenaRt {
     pub dead_set_base: BTreeSet<Id>,
     /// a trace fault fired in this arena since it was last observed Sleeping
     pub faulted_cycle: bool,
+    /// largest magnitude ever passed to adjust_debt: the rounding scale of the hidden debits
+    pub debt_scale: f64,
 }
 
 impl ArenaRt {
@@ -122,6 +124,7 @@ impl Default for ArenaRt {
             dead_set: None,
             dead_set_base: BTreeSet::new(),
             faulted_cycle: false,
+            debt_scale: 0.0,
         }
     }
 }
@@ -161,6 +164,7 @@ pub struct Stats {
     pub stashes: u64,
     pub handle_ops: u64,
     pub known_c10_fw: u64,
+    pub trace_ticks: u64,
     /// coverage cells: name -> hits
     pub cells: BTreeMap<String, u64>,
     /// non-triviality flags raised by this run (by property antecedent, DESIGN 2.12)
@@ -261,6 +265,8 @@ pub enum Caught<T> {
     Injected,
     /// some other panic escaped from the crate
     Unexpected(String),
+    /// the harness stopped the run from inside a destructor (a protected value was being destructed)
+    Stopped,
 }
 
 pub fn guarded<T>(f: impl FnOnce() -> T) -> Caught<T> {
@@ -270,6 +276,8 @@ pub fn guarded<T>(f: impl FnOnce() -> T) -> Caught<T> {
             let _pz = seam::pause();
             if p.downcast_ref::<Injected>().is_some() {
                 Caught::Injected
+            } else if p.downcast_ref::<crate::tok::StopRun>().is_some() {
+                Caught::Stopped
             } else {
                 Caught::Unexpected(panic_message(&p))
             }
@@ -559,8 +567,11 @@ impl World {
         // exact for dyadic pacings; a non-dyadic factor makes the debt itself a rounded quantity
         let p = self.sh.arena(a).pacing;
         let dyadic = [p.mark, p.trace, p.keep, p.drop, p.free].iter().all(|f| (f * 1024.0).fract() == 0.0);
-        let scale = before.abs().max(x.abs()).max(after.abs());
-        let tol = if dyadic { 8.0 * f64::EPSILON * scale } else { 1e-9 * (1.0 + scale + m.total_gc_count() as f64) };
+        // the hidden debits may be far larger than the visible debt: their magnitude sets the ulp
+        let hidden = self.rt[a as usize].debt_scale.max(self.rt[a as usize].allocs as f64);
+        let scale = before.abs().max(x.abs()).max(after.abs()).max(hidden);
+        let tol = if dyadic { 16.0 * f64::EPSILON * scale } else { 1e-9 * (1.0 + scale) };
+        self.rt[a as usize].debt_scale = self.rt[a as usize].debt_scale.max(x.abs());
         if before > 0.0 && before + x > 0.0 && (after - (before + x)).abs() > tol {
             self.violate("C10.adjust", format!("arena {a}: debt {before} + adjust_debt({x}) reads {after}"));
         }
@@ -605,7 +616,7 @@ impl World {
                         self.sh.groups.get_mut(&group).unwrap().count += 1;
                         self.sh.next_hid = self.sh.next_hid.max(new + 1);
                     }
-                    Caught::Injected => {}
+                    Caught::Injected | Caught::Stopped => {}
                     Caught::Unexpected(m) => {
                         let o = if arena_alive { "C14.panic" } else { "C14.afterlife" };
                         self.violate(o, format!("DynamicRoot::clone panicked: {m}"));
